@@ -183,7 +183,12 @@ namespace cnl {
             // A comprehensive solution would fully optimise width of result type.
             // E.g. 0x00000001 would report num_bits=1, not 31.
             // But this is fast, simple and avoids the pathological case.
-            auto const first_digit_char{str[offset + (str[offset] == radix_char)]};
+            // skip the radix point and digit separators, e.g. ".5" and "0'7"
+            auto const* first_digit_pos{str + offset};
+            while (*first_digit_pos == radix_char || *first_digit_pos == separator) {
+                ++first_digit_pos;
+            }
+            auto const first_digit_char{*first_digit_pos};
             auto const first_digit{make_char_to_digit_positive(base)(first_digit_char)};
             return params{
                     is_negative, base,
